@@ -679,8 +679,8 @@ func (e *Exec) frameObligations(s *State) {
 	}
 	entryAlloc := e.cur(e.entry, "$alloc", []string{"Ref"}, "Bool")
 	for _, fam := range sortedKeys(s.ver) {
-		if fam == "$alloc" || strings.HasPrefix(fam, "$unbox_") || strings.HasPrefix(fam, "$txn.") || strings.HasPrefix(fam, "$it.") {
-			continue // allocation state, immutable boxes, transaction-local and iterator-local ghost state
+		if fam == "$alloc" || strings.HasPrefix(fam, "$unbox_") || strings.HasPrefix(fam, "$txn.") || strings.HasPrefix(fam, "$it.") || strings.HasPrefix(fam, "$mu.") {
+			continue // allocation state, immutable boxes, transaction-local and iterator-local ghost state, held mutexes
 		}
 		if con.ModAll && !storeGhostFam(fam) {
 			continue // 'modifies *' covers the whole heap - but NOT the modelled stores and ghost variables: those are listed
